@@ -62,6 +62,29 @@ def make_hg(rx, names, rule, order):
     return hg
 
 
+def ref_view(rx, names, include_rule, include_stoich):
+    """the view the property speaks about, built by the harness from the network itself: bipartite species/reaction
+    digraph (reactant arcs species->reaction, product arcs reaction->species, stoichiometry if requested) or the
+    collapsed species->species digraph."""
+    G = nx.DiGraph()
+    used = sorted({i for r, p in rx for i in list(r) + list(p)})
+    for i in used:
+        G.add_node(("s", names[i]), kind="species")
+    if include_rule:
+        for j, (r, p) in enumerate(rx):
+            G.add_node(("r", j), kind="reaction")
+            for i, c in r.items():
+                G.add_edge(("s", names[i]), ("r", j), role="reactant", **({"stoich": c} if include_stoich else {}))
+            for i, c in p.items():
+                G.add_edge(("r", j), ("s", names[i]), role="product", **({"stoich": c} if include_stoich else {}))
+    else:
+        for r, p in rx:
+            for i in r:
+                for k in p:
+                    G.add_edge(("s", names[i]), ("s", names[k]))
+    return G
+
+
 def covered(G, nkeys, ekeys):
     nodes = {v: tuple(G.nodes[v].get(k) for k in nkeys) for v in G.nodes}
     arcs = {(u, v): tuple(_fz(d.get(k)) for k in ekeys) for u, v, d in G.edges(data=True)}
@@ -155,7 +178,8 @@ def h_canon(E, ns, nr, cmax, unit_ring=None):
         c2, s2 = canon_summary(hg2, include_rule, include_stoich, "same")
         c3, s3 = canon_summary(hg1, include_rule, include_stoich, None)
         nk, ek = c1.node_attr_keys, c1.edge_attr_keys
-        G1, C1, C2, C3 = c1.G, s1["canon_graph"], s2["canon_graph"], s3["canon_graph"]
+        G1, C1, C2, C3 = ref_view(rx, NAMES, include_rule, include_stoich), s1["canon_graph"], s2["canon_graph"], s3["canon_graph"]
+        E.check(not iso_maps(G1, c1.G, nk, ek), "analysed-view-is-the-requested-view", dict(info, view=view))
         E.check(not iso_maps(G1, C1, nk, ek), "canonical-graph-is-isomorphic-to-the-view", dict(info, view=view))
         E.check(covered(C1, nk, ek) != covered(C2, nk, ek), "renamed-network-gets-the-identical-canonical-graph",
                 dict(info, view=view, c1=sorted(C1.edges), c2=sorted(C2.edges)))
@@ -165,18 +189,25 @@ def h_canon(E, ns, nr, cmax, unit_ring=None):
         E.check(s1["automorphism_count"] != len(auts) or s3["automorphism_count"] != len(auts),
                 "automorphism-count-is-exact", dict(info, view=view, got=s1["automorphism_count"], want=len(auts)))
         got_orb = sorted(sorted(map(str, o)) for o in s1["orbits"])
-        E.check(got_orb != orbits_of(auts, list(G1.nodes)), "orbits-are-exact",
-                dict(info, view=view, got=got_orb, want=orbits_of(auts, list(G1.nodes))))
+        to_code = (iso_maps(G1, c1.G, nk, ek) or [None])[0]
+        if to_code is not None:
+            want_orb = orbits_of([{to_code[a]: to_code[b] for a, b in f.items()} for f in auts], list(c1.G.nodes))
+            E.check(got_orb != want_orb, "orbits-are-exact", dict(info, view=view, got=got_orb, want=want_orb))
         # VF2-based helper: compares node kinds and arcs only
         a = CRNAutomorphism(hg1, include_rule=include_rule, include_stoich=include_stoich)
         sa = a.summary(max_count=1000, timeout_sec=None)
-        auts_a = iso_maps(a.G, a.G, a.node_attr_keys, ())
+        Ga = ref_view(rx, NAMES, include_rule, include_stoich)
+        E.check(not iso_maps(Ga, a.G, a.node_attr_keys, ()), "analysed-view-is-the-requested-view", dict(info, view=view, api="vf2"))
+        auts_a = iso_maps(Ga, Ga, a.node_attr_keys, ())
         cnt = sa.get("automorphism_count", sa.get("count", sa.get("n_automorphisms")))
         E.check(cnt is not None and cnt != len(auts_a), "vf2-automorphism-count-is-exact",
                 dict(info, view=view, got=cnt, want=len(auts_a), keys=sorted(sa)))
         ob = sa.get("orbits")
-        E.check(ob is not None and sorted(sorted(map(str, o)) for o in ob) != orbits_of(auts_a, list(a.G.nodes)),
-                "vf2-orbits-are-exact", dict(info, view=view))
+        if ob is not None:
+            back = iso_maps(Ga, a.G, a.node_attr_keys, ())
+            size_prof = lambda orbs: sorted(len(o) for o in orbs)
+            E.check(size_prof(ob) != size_prof(orbits_of(auts_a, list(Ga.nodes))) or not back,
+                    "vf2-orbits-are-exact", dict(info, view=view))
     E.note(nontrivial=any_aut or pi != sorted(pi))
     E.observe((sorted(map(str, s1["canon_graph"].edges)), s1["automorphism_count"]))
 
@@ -193,7 +224,7 @@ def h_pair(E, ns, nr, cmax):
         cb, sb = canon_summary(hgb, include_rule, include_stoich, None)
         nk, ek = ca.node_attr_keys, ca.edge_attr_keys
         same = covered(sa["canon_graph"], nk, ek) == covered(sb["canon_graph"], nk, ek)
-        iso = bool(iso_maps(ca.G, cb.G, nk, ek))
+        iso = bool(iso_maps(ref_view(rxa, NAMES, include_rule, include_stoich), ref_view(rxb, ALT, include_rule, include_stoich), nk, ek))
         view = dict(include_rule=include_rule, include_stoich=include_stoich)
         E.check(same and not iso, "non-isomorphic-views-get-identical-canonical-graphs", dict(info, view=view))
         E.check(iso and not same, "isomorphic-views-get-different-canonical-graphs", dict(info, view=view))
